@@ -943,7 +943,7 @@ Proof.
     + pose proof (fwd_headers_values h _ HK (fun _ => HU)) as V. unfold hout. destruct wire; [|exact V].
       specialize (R eq_refl eq_refl). rewrite hhas_hvalues in HU.
       destruct (hvalues h k_user_agent) as [|v [|w l]] eqn:VS; try discriminate; try contradiction.
-      unfold wire_headers, hget. rewrite V, R, V. apply hvalues_hset_same.
+      unfold wire_headers, hget. rewrite V, R. apply hvalues_hset_same.
     + pose proof (fwd_headers_ua_absent h HK HU) as V. unfold hout. destruct wire; [|now left].
       right. unfold wire_headers, hget. rewrite V. cbn [nonempty]. apply hvalues_hdel_same.
   - apply beq_neq in BU. unfold hout. destruct wire; [rewrite wire_headers_other by assumption|];
@@ -1015,3 +1015,89 @@ Proof.
   destruct (ro_host o) as [|c r] eqn:E; [contradiction|]. cbn [nonempty].
   destruct (beq (c :: r) dst) eqn:B; [apply beq_eq in B; contradiction | reflexivity].
 Qed.
+
+(* ---------- websocket upgrade: the request line sent on the upstream connection ---------- *)
+Definition no_headers (q : request) : request :=
+  {| rq_method := rq_method q; rq_target := rq_target q; rq_host := rq_host q; rq_headers := []; rq_body := rq_body q |}.
+
+Lemma ws_as_forward o q m t h :
+  ws_forward o q = Ok (m, t, h) -> region_ws_lone_q (rq_target q) = false ->
+  exists u, forward false o (no_headers q) = Ok u /\ up_target u = t /\ up_host u = h /\ m = rq_method q.
+Proof.
+  unfold ws_forward, forward, region_ws_lone_q, raw_query_of. cbn [no_headers rq_target rq_headers rq_host rq_method].
+  destruct (parse_target (rq_target q)) as [p| |] eqn:P; cbn [bind]; try discriminate.
+  intros W L. inversion W; subst. eexists. split; [reflexivity|].
+  cbn [up_target up_host]. repeat split. unfold fwd_target.
+  apply parse_target_inv in P as (_ & _ & Q).
+  assert (FQ : p_force p = false).
+  { assert (E : p_force p = snd (query_of (snd (cut_q (rq_target q))))) by (now rewrite <- Q).
+    rewrite E. destruct (snd (cut_q (rq_target q))) as [[|x0 x]|]; try reflexivity. discriminate. }
+  now rewrite FQ.
+Qed.
+
+Theorem ws_target_on_domain o q m t h :
+  all_lt_256 (rq_target q) = true ->
+  ws_forward o q = Ok (m, t, h) ->
+  region_ws_lone_q (rq_target q) = false ->
+  region_strip_encoding o (rq_target q) = false ->
+  region_invalid_byte o (rq_target q) = false ->
+  t = spec_target o (rq_target q) /\ h = spec_host o (rq_host q) /\ m = rq_method q.
+Proof.
+  intros Hb W L R1 R2. destruct (ws_as_forward _ _ _ _ _ W L) as (u & F & T & H & M).
+  split; [|split; [|exact M]].
+  - rewrite <- T. now apply (target_on_domain false o (no_headers q) u).
+  - rewrite <- H. apply (host_spec false o (no_headers q) u F).
+Qed.
+
+Theorem ws_lone_q_refuted :
+  exists o q m t h, ws_forward o q = Ok (m, t, h)
+    /\ region_ws_lone_q (rq_target q) = true
+    /\ spec_target o (rq_target q) = bs "/x?" /\ t = bs "/x".
+Proof.
+  exists (mk_opts "" ""), (mk_req "/x?"). do 3 eexists. repeat split; vm_compute; reflexivity.
+Qed.
+
+(* ---------- User-Agent over a real connection ---------- *)
+Definition mk_req_ua (uas : list string) : request :=
+  {| rq_method := bs "GET"; rq_target := bs "/x"; rq_host := bs "example.com";
+     rq_headers := map (fun v => (k_user_agent, bs v)) uas; rq_body := [] |}.
+
+Theorem ua_wire_refuted :
+  (exists u, forward true (mk_opts "" "") (mk_req_ua ["a/1"%string; "b/2"%string]) = Ok u
+     /\ region_ua_wire (mk_req_ua ["a/1"%string; "b/2"%string]) = true
+     /\ hvalues (up_headers u) k_user_agent = [bs "a/1"]
+     /\ spec_forward_rest (mk_opts "" "") (mk_req_ua ["a/1"%string; "b/2"%string]) u = false)
+  /\ (exists u, forward true (mk_opts "" "") (mk_req_ua [""%string]) = Ok u
+     /\ region_ua_wire (mk_req_ua [""%string]) = true
+     /\ hvalues (up_headers u) k_user_agent = []
+     /\ spec_forward_rest (mk_opts "" "") (mk_req_ua [""%string]) u = false).
+Proof. split; eexists; repeat split; vm_compute; reflexivity. Qed.
+
+Example spec_rest_nonvacuous :
+  let q := {| rq_method := bs "POST"; rq_target := bs "/x"; rq_host := bs "example.com";
+              rq_headers := [(bs "Accept", bs "*/*"); (bs "Connection", bs "X-Foo, close"); (bs "Cookie", bs "a=1");
+                             (bs "Cookie", bs "b=2"); (bs "Te", bs "trailers"); (bs "X-Foo", bs "1")];
+              rq_body := bs "body" |} in
+  region_ua_wire q = false
+  /\ exists u, forward true (mk_opts "" "") q = Ok u
+       /\ map fst (up_headers u) = [bs "Accept"; bs "Cookie"; bs "Cookie"; bs "Te"].
+Proof. split; [reflexivity|]. eexists. split; vm_compute; reflexivity. Qed.
+
+Example on_domain_noncanonical_nonvacuous :
+  let o := mk_opts "/strip" "" in let q := mk_req "/strip/a%2Fb" in
+  canonical_raw (raw_path_of (rq_target q)) = false
+  /\ region_strip_encoding o (rq_target q) = false /\ region_invalid_byte o (rq_target q) = false.
+Proof. repeat split. Qed.
+
+(* the statements exported to Properties: restricted to names outside the managed set (the
+   forwarding headers are rewritten by addHeaders, property C08, outside this model) *)
+Lemma headers_identity_e2e o q u k :
+  forward false o q = Ok u -> mem_str k managed_req = false ->
+  is_hop (rq_headers q) k = false -> (k = k_user_agent -> hhas (rq_headers q) k = true) ->
+  hvalues (up_headers u) k = hvalues (rq_headers q) k.
+Proof. intros F _ H U. exact (headers_identity o q u k F H U). Qed.
+Lemma headers_identity_wire_e2e o q u k :
+  forward true o q = Ok u -> mem_str k managed_req = false ->
+  is_hop (rq_headers q) k = false -> k <> k_user_agent ->
+  hvalues (up_headers u) k = hvalues (rq_headers q) k.
+Proof. intros F _ H U. exact (headers_identity_wire o q u k F H U). Qed.
